@@ -28,7 +28,9 @@
      not list strings among the values shared by reference, so the model never
      aliases a string: a string reference is held by exactly one name and only
      literal evaluation and `s[0] = ch` act on it.)
-   There is no history variable: every transition is exported (pre-state,
+   The only bookkeeping variable is the operation counter d that bounds the
+   exploration; what happened is not recorded in the state: every transition
+   is exported (pre-state,
    operation, post-state) for binding A, which replays it on the interpreter
    and compares what every name reads.
 
@@ -47,8 +49,9 @@ CONSTANTS MaxRefs,    \* number of references (containers alive at once)
 Names == {"a", "b", "s", "c"}
 Ref   == 1..MaxRefs
 
-VARIABLES heap, names
-vars == <<heap, names>>
+VARIABLES heap, names,
+          d           \* number of operations so far (bounds the exploration)
+vars == <<heap, names, d>>
 
 \* the name a non-mutating operation on n binds its result to
 Tgt(n) == CASE n = "a" -> "b" [] n = "b" -> "s" [] n = "s" -> "c" [] OTHER -> "a"
@@ -77,10 +80,21 @@ Proj(h, nm) ==
   [h |-> [r \in Ref |-> <<h[r].k, h[r].keys, [i \in DOMAIN h[r].items |-> Code(h[r].items[i])]>>],
    n |-> <<Code(nm.a), Code(nm.b), Code(nm.s), Code(nm.c)>>]
 
+\* Probes: one more documented mutation through every name after the last
+\* operation of a sequence.  What a non-mutating operation returned can only be
+\* told apart from an alias of its input by a later mutation, so the states at
+\* the depth bound are expanded once more, by these operations only.
+IsProbe(o) == \/ o.op \in {"append", "put"}
+              \/ o.op = "set_member" /\ o.x = 1
+              \/ o.op = "set_elem" /\ (heap[names[o.n].v].k = "str" \/ Len(heap[names[o.n].v].items) = MaxLen)
+
 Finish(h2, nm2, o) ==
+  /\ d < MaxDepth \/ (d = MaxDepth /\ IsProbe(o))
+  /\ d' = d + 1
   /\ names' = nm2
   /\ heap' = GC(h2, nm2)
-  /\ Emit("EDGE", [pre |-> Proj(heap, names), op |-> o, post |-> Proj(heap', names')])
+  /\ Emit("EDGE", [pre |-> Proj(heap, names), op |-> o, post |-> Proj(heap', names'),
+                   probe |-> d >= MaxDepth])
 
 \* a documented mutator: the content of the reference n denotes is replaced
 Mutate(n, newc, o) == Finish([heap EXCEPT ![names[n].v] = newc], names, o)
@@ -316,12 +330,11 @@ InitSel == CHOOSE i \in 0..Len(InitSeq) : ToString(i) = IOEnv.INIT_SEL
 InitStates == IF InitSel = 0 THEN Range(InitSeq) ELSE {InitSeq[InitSel]}
 
 Init == \E g \in InitStates :
-          /\ heap = g.h /\ names = g.n
+          /\ heap = g.h /\ names = g.n /\ d = 0
           /\ Emit("INIT", Proj(g.h, g.n))
 
 Spec == Init /\ [][Next]_vars
 
-Depth == TLCGet("level") <= MaxDepth
 
 -----------------------------------------------------------------------------
 (* Properties. *)
